@@ -394,6 +394,10 @@ class Program:
         how = d.get("how", "val")
         if how == "val":
             self.defaults.append(obj)
+            if d.get("style") == "annotated":
+                # `name: Annotated[T, Field(...)] = obj`: the default is assigned, the Field rides on the annotation
+                self.ann_extra = F(**kw)
+                return obj, True
             if (is_func or d.get("plain")) and not f.get("no_output") and not cons and not kw.get("defer_default"):
                 return obj, True          # `name: T = obj` — a plain Python default
             return F(default=obj, **kw), True
@@ -416,9 +420,13 @@ class Program:
             ann, attrs = {}, {}
             for f in decl["fields"]:
                 ann[f["name"]] = self.mk_type(f["ty"], k)
+                self.ann_extra = None
                 dv, has = self.mk_default(f, False)
                 if has:
                     attrs[f["name"]] = dv
+                if self.ann_extra is not None:
+                    from utype.utils.compat import Annotated
+                    ann[f["name"]] = Annotated[ann[f["name"]], self.ann_extra]
             attrs["__annotations__"] = ann
             attrs["__module__"] = self.modname
             attrs["__qualname__"] = names[k]
@@ -444,7 +452,11 @@ class Program:
             params = []
             for i, f in enumerate(decl["fields"]):
                 ns[f"T{k}_{i}"] = self.mk_type(f["ty"], k)
+                self.ann_extra = None
                 dv, has = self.mk_default(f, True)
+                if self.ann_extra is not None:
+                    from utype.utils.compat import Annotated
+                    ns[f"T{k}_{i}"] = Annotated[ns[f"T{k}_{i}"], self.ann_extra]
                 if has:
                     ns[f"D{k}_{i}"] = dv
                     params.append(f"{f['name']}: T{k}_{i} = D{k}_{i}")
@@ -591,6 +603,46 @@ def do_mutate(op, roots, put=None):
     return "ok"
 
 
+_TT = {}
+
+
+def tt_type(name):
+    """the types of the options-less helper calls: `type_transform(data, T)` / `T(data)` with the default options"""
+    if not _TT:
+        from utype import Rule
+
+        class Scores(list, Rule):
+            __args__ = (int,)
+            max_length = 3
+
+        class Percent(int, Rule):
+            ge = 0
+            le = 100
+
+        class Lim(dict, Rule):
+            __args__ = (str, int)
+            max_length = 2
+        _TT.update(scores=Scores, percent=Percent, lim=Lim, optpercent=Percent | None)
+    return _TT[name]
+
+
+TT_MENU = {   # type -> (inputs that convert, inputs that do not)
+    "scores": (["1,2,3", {"k": "list", "items": [1, "2"], "keys": []}], ["1,x,3", {"k": "list", "items": [1, 2, 3, 4], "keys": []}]),
+    "percent": (["55", 7], ["101", "x"]),
+    "optpercent": (["7", None], ["101"]),
+    "lim": ([{"k": "dict", "items": ["1"], "keys": ["a"]}], [{"k": "dict", "items": ["x"], "keys": ["a"]},
+                                                            {"k": "dict", "items": [1, 2, 3], "keys": ["a", "b", "c"]}]),
+}
+
+
+def do_tt(op, inp):
+    import utype
+    T = tt_type(op["t"])
+    if op.get("via") == "rule_call" and op["t"] != "optpercent":
+        return T(inp)
+    return utype.type_transform(inp, T)
+
+
 def classify_exc(e):
     from utype.utils.exceptions import ParseError
     if isinstance(e, ParseError):
@@ -606,7 +658,9 @@ def run_program(case, only_last=False, only_wrapper=None, only_op=None, post=Non
         ops = [ops[-1]]
     if only_op is not None:
         ops = [ops[only_op]]
-    only_decls = needed_decls(case, ops[0]["target"]) if (only_last or only_op is not None) else None
+    only_decls = None
+    if only_last or only_op is not None:
+        only_decls = needed_decls(case, ops[0]["target"]) if ops[0]["op"] == "call" else set()
     prog = Program(case, only_wrapper=only_wrapper, only_decls=only_decls)
     roots, outs, changed = [], [], []
     prog.put = []
@@ -631,6 +685,20 @@ def run_program(case, only_last=False, only_wrapper=None, only_op=None, post=Non
                     post[i] = [outs[-1], erase(observe([res], cut=opaque_default_ids(prog.defaults))[0])]
                 roots.append(inp)
                 roots.append(res)
+            elif kind == "tt":
+                # a conversion through a public helper that takes no options: no declaration involved, no root kept
+                inp = build(op["input"], {}, roots)
+                before = observe([inp])
+                try:
+                    res = do_tt(op, inp)
+                    outs.append("ok")
+                except Exception as e:   # noqa
+                    res = _NOROOT
+                    outs.append(classify_exc(e))
+                if before != observe([inp]):
+                    changed.append(i)
+                if post is not None:
+                    post[i] = [outs[-1], erase(observe([res])[0])]
             elif kind == "declare":
                 if prog.classes[op["decl"]] is None:
                     prog.declare(op["decl"])
@@ -685,6 +753,8 @@ def strip_cls(t):
 
 
 def _wrapper_of(case, op):
+    if op["op"] != "call":
+        return None
     return (op["target"], op.get("wrapper", 0)) if case["env"][op["target"]]["kind"] == "func" else None
 
 
@@ -697,13 +767,14 @@ def impl(case):
     put = set()
     for t in snap[nd + len(roots):]:
         mut_ids(t, put)
+    res["tt_post"] = [[i, post[i]] for i, op in enumerate(case["ops"]) if op["op"] == "tt" and i in post]
     res["caller_put"] = sorted(put)      # objects the caller itself stored into another root (and what they hold)
     # every call that does not refer to earlier roots is replayed alone on freshly built declarations:
     # same outcome, same value — whatever happened before it in the history (failed calls included)
     res["replayed"] = 0
     res["replay_mismatch"] = []
     for i, op in enumerate(case["ops"][:-1]):
-        if op["op"] == "call" and '"root"' not in json.dumps(op["input"]):
+        if op["op"] in ("call", "tt") and '"root"' not in json.dumps(op["input"]):
             p1 = {}
             run_program(case, only_op=i, only_wrapper=_wrapper_of(case, op), post=p1)
             res["replayed"] += 1
@@ -898,6 +969,16 @@ def spec_check(case, io):
         if prune(g) != prune(w_):
             return "(d) a declared default object changed value during the history"
     # (e) history independence
+    seen_tt = {}
+    for i, got in io.get("tt_post", []):
+        k = json.dumps([ops[i]["t"], ops[i].get("via"), ops[i]["input"]], sort_keys=True)
+        if k in seen_tt and seen_tt[k][1] != got:
+            return (f"(e) the options-less conversion #{i} gives {got[0]} but the very same conversion #{seen_tt[k][0]} "
+                    f"earlier in the history gave {seen_tt[k][1][0]}")
+        seen_tt.setdefault(k, (i, got))
+        if ops[i].get("expect") and got[0] != ops[i]["expect"]:
+            return (f"(e) the options-less conversion #{i} gives {got[0]}; on its own, in a process that has converted nothing "
+                    f"before, it gives {ops[i]['expect']}")
     for i, here, alone in io.get("replay_mismatch", []):
         return (f"(e) call #{i} gives {here[0] if here else None} after the history but {alone[0] if alone else None} "
                 f"(or a different value) when it is the only call on freshly built declarations")
@@ -1279,9 +1360,11 @@ def g_case(rng, maxops=7, p_fresh=0.03):
                     f["cons"] = c
             if _refs_class(ty, lambda j: j >= k) and f["default"] is None:
                 f["default"] = {"how": "val", "val": None, "plain": True}
+            if f["default"] is not None and f["default"].get("how", "val") == "val" and rng.random() < 0.25:
+                f["default"]["style"] = "annotated"      # `x: Annotated[T, Field(...)] = value`
             if kind != "func" and rng.random() < 0.15:
                 f["no_output"] = True
-            if kind != "func" and f["default"] is not None and rng.random() < 0.1:
+            if kind != "func" and f["default"] is not None and f["default"].get("style") != "annotated" and rng.random() < 0.1:
                 f["defer"] = True          # Field(defer_default=True): filled in on attribute access, not by the parse
             if kind != "func" and k > 0 and rng.random() < 0.04:
                 # a data-class instance as a default (copy_value: a Schema instance comes back as a plain dict,
@@ -1445,6 +1528,17 @@ def g_case(rng, maxops=7, p_fresh=0.03):
             ops.append({"op": "copy", "root": src[0]})
             results.append((nroots, src[1], src[2], src[3]))
             nroots += 1
+    if rng.random() < 0.12:
+        # conversions through the public helpers that take no options (`type_transform(data, T)`, `T(data)`): the same
+        # valid conversion before and after one that fails, somewhere before the probe
+        t = rng.choice(list(TT_MENU))
+        good, bad_ = TT_MENU[t]
+        via = rng.choice(["type_transform", "type_transform", "rule_call"])
+        a = {"op": "tt", "t": t, "via": via, "input": rng.choice(good), "expect": "ok"}
+        t2 = rng.choice([t, t, rng.choice(list(TT_MENU))])
+        b = {"op": "tt", "t": t2, "via": rng.choice(["type_transform", via]), "input": rng.choice(TT_MENU[t2][1]), "expect": "perr"}
+        for new in (a, b, dict(a)):
+            ops.insert(rng.randrange(max(1, len(ops))) if rng.random() < 0.3 else max(0, len(ops) - 1), new)
     case = {"env": env, "ops": ops}
     # running options whose force_default is a (nested, maybe subclassed) container shared by every parse that uses them
     calls = [op for op in ops if op["op"] == "call" and op.get("ropt") is not None]
@@ -1586,7 +1680,8 @@ class C19(Check):
         return [g_case(rng, 12, 0.02) for _ in range(n)]
 
     def model_line(self, case):
-        return {"env": case["env"], "ops": case["ops"], "fpool": case.get("fpool", []),
+        # the options-less helper conversions are judged by the oracle only (they keep no root): not in the model's program
+        return {"env": case["env"], "ops": [op for op in case["ops"] if op["op"] != "tt"], "fpool": case.get("fpool", []),
                 "legacy_copy": bool(case.get("legacy_copy"))}
 
     def compare(self, case, io, mo):
@@ -1598,9 +1693,10 @@ class C19(Check):
             return None
         if "outs" not in io:
             return f"impl: {str(io)[:200]}"
-        if io["outs"] != mo["outs"]:
-            i = next((k for k, (a, b) in enumerate(zip(io["outs"], mo["outs"])) if a != b), -1)
-            return f"outcome of op #{i} differs: impl={io['outs'][i]} model={mo['outs'][i]}"
+        iouts = [o for o, op in zip(io["outs"], case["ops"]) if op["op"] != "tt"]
+        if iouts != mo["outs"]:
+            i = next((k for k, (a, b) in enumerate(zip(iouts, mo["outs"])) if a != b), -1)
+            return f"outcome of op #{i} (helper conversions not counted) differs: impl={iouts[i]} model={mo['outs'][i]}"
         nd = len(mo["defaults"])
         cm = canon_model(mo["defaults"] + mo["roots"])
         ci = io["defaults"] + io["roots"]
@@ -1620,6 +1716,8 @@ class C19(Check):
             import re
             m = re.match(r"\(e\) call #(\d+) ", why)
             last = case["ops"][int(m.group(1))] if m else case["ops"][-1]
+            if last["op"] != "call":
+                return None
             d = case["env"][last["target"]]
             if d["kind"] == "func":
                 ws = d.get("wrappers") or [None]
